@@ -6,6 +6,7 @@ Nothing in here draws from a PRNG except `rng_for`; nothing reads a clock
 except the outer batch loop (to report wall time and to stop *starting* new
 work) -- never to decide anything inside a run.
 """
+import contextlib
 import hashlib
 import importlib
 import json
@@ -223,7 +224,55 @@ def run_one(mod, base_seed, r, tier, stats):
     return out
 
 
+class RunTimeout(BaseException):
+    """Raised in the main thread by the wall-budget timer (BaseException: passes through `except Exception`)."""
+
+
+_BUDGET_ACTIVE = [False]
+
+
+@contextlib.contextmanager
+def wall_budget(seconds):
+    """One run may take `seconds` of wall time (normal runs take well under a second); the outermost budget counts."""
+    import signal
+    import threading
+
+    if seconds <= 0 or _BUDGET_ACTIVE[0] or threading.current_thread() is not threading.main_thread():
+        yield
+        return
+
+    def on_alarm(signum, frame):
+        raise RunTimeout()
+
+    old = signal.signal(signal.SIGALRM, on_alarm)
+    _BUDGET_ACTIVE[0] = True
+    signal.setitimer(signal.ITIMER_REAL, seconds)
+    try:
+        yield
+    finally:
+        signal.setitimer(signal.ITIMER_REAL, 0)
+        signal.signal(signal.SIGALRM, old)
+        _BUDGET_ACTIVE[0] = False
+
+
+def run_budget(mod):
+    return float(os.environ.get("VERIF_RUN_BUDGET", getattr(mod, "RUN_BUDGET_S", 120)))
+
+
 def safe_execute(mod, case, stats):
+    """As _safe_execute, within the wall budget of one run: a run that does not finish is a violation of class 'hang'
+    (reported with its case; not minimised), not a harness failure."""
+    budget = run_budget(mod)
+    try:
+        with wall_budget(budget):
+            return _safe_execute(mod, case, stats)
+    except RunTimeout:
+        return {"violations": [{"class": "hang", "clause": "wall-budget", "key": {"class": "hang"},
+                                "detail": {"budget_s": budget, "note": "the run did not finish within its wall budget (ordinary runs take well under a second)"}}],
+                "nontrivial": False, "signature": None}
+
+
+def _safe_execute(mod, case, stats):
     """execute(), with an unexpected exception of the oracle turned into a violation record.
 
     The oracles are exercised on >10^5 cases of the unchanged tree without raising; when one raises on a changed
@@ -242,7 +291,7 @@ def safe_execute(mod, case, stats):
                     raise
                 except Exception:
                     pass
-            return safe_execute(mod, case["sequence"][-1], stats)
+            return _safe_execute(mod, case["sequence"][-1], stats)
         return mod.execute(case, stats)
     except HarnessError:
         raise
@@ -305,12 +354,17 @@ def _worker(args):
                 + traceback.format_exc()
             ) from e
         faulthandler.cancel_dump_traceback_later()
+        hung = any(v["violation"].get("class") == "hang" for v in vs)
         for v in vs:
             k = (v["violation"].get("class"), v["violation"].get("clause"), dumps(v["violation"].get("key", {})))
             per_class[k] = per_class.get(k, 0) + 1
             stats.inc("violating_observations")
             if per_class[k] <= 2:
                 viols.append(v)
+        if hung:
+            # threads of the simulated runtime may still be parked and the library's state is unknown: this worker stops here
+            stats.inc("runs_not_executed_after_a_hang", len(indices) - indices.index(r) - 1)
+            break
     stats.inc("worker_wall_ms", int((time.time() - t0) * 1000))
     return stats.to_payload(), viols
 
@@ -374,9 +428,14 @@ def run_check(modname, tier, base_seed=None, jobs=None, runs=None):
         if failure is not None:
             raise HarnessError(f"worker failed: {failure}")
     extra = {}
-    if hasattr(mod, "finalize"):
-        # e.g. the compiled-kernel anchor: runs in the parent, after the pool
-        extra = mod.finalize(tier, base_seed, stats, viols) or {}
+    if hasattr(mod, "finalize") and not any(v["violation"].get("class") == "hang" for v in viols):
+        # e.g. the compiled-kernel anchor: runs in the parent, after the pool (not when a run of the pool did not terminate:
+        # the anchor executes the same code)
+        try:
+            with wall_budget(float(os.environ.get("VERIF_ANCHOR_BUDGET", 900))):
+                extra = mod.finalize(tier, base_seed, stats, viols) or {}
+        except RunTimeout:
+            raise HarnessError("the fidelity anchor (finalize) did not terminate within its wall budget")
     wall_runs = time.time() - t0
 
     # ---- violations: group, shrink, write replay, verify, match known findings
@@ -414,6 +473,19 @@ def run_check(modname, tier, base_seed=None, jobs=None, runs=None):
             msg = str(e)
         except Exception:
             raise HarnessError("shrinker crashed: " + traceback.format_exc())
+        if not ok and path is not None and "NOT-REPRODUCED" in msg:
+            # behaviour that depends on the interpreter's string-hash seed (iteration order of a set, say) reproduces only
+            # under the seed of the worker processes: the replay file then names the seed it needs, and `--replay` uses it
+            hs = os.environ.get("PYTHONHASHSEED", "0")
+            ok2, _ = verify_replay(prop, path, hashseed=hs)
+            if ok2:
+                rec = json.load(open(path))
+                rec["pythonhashseed"] = hs
+                rec["note"] = "reproduces under this PYTHONHASHSEED only: the behaviour depends on hash order"
+                with open(path, "w") as f:
+                    f.write(dumps(rec))
+                ok = True
+                print(f"NOTE property={prop} replay={path} depends on the string-hash seed (PYTHONHASHSEED={hs} recorded in the file)", flush=True)
         if not ok:
             # not reproducible on its own: does it need the runs that the same worker process executed before it?
             found = sequence_replay(mod, prop, base_seed, tier, jobs if len(plan) > 1 else 1, case, viol)
@@ -465,7 +537,7 @@ def shrink(mod, case, viol, budget_s):
     """Repeatedly try the module's candidate reductions of `case`; accept one
     only if the *same* violation (class, clause, key) persists and the module's
     size measure strictly decreases (guarantees termination)."""
-    if not hasattr(mod, "reductions"):
+    if not hasattr(mod, "reductions") or viol.get("class") == "hang":
         return case, viol
     t_end = time.time() + budget_s
     cur, cur_v = case, viol
@@ -634,10 +706,10 @@ def sequence_replay(mod, prop, base_seed, tier, jobs, case, viol):
     return small_case, got, path
 
 
-def verify_replay(prop, path):
+def verify_replay(prop, path, hashseed="12345"):
     """Fresh interpreter, another PYTHONHASHSEED: must reproduce the identical record."""
     env = dict(os.environ)
-    env["PYTHONHASHSEED"] = "12345"
+    env["PYTHONHASHSEED"] = hashseed
     env["VERIF_NO_REEXEC"] = "1"
     env.pop("HOME", None)
     try:
